@@ -200,6 +200,7 @@ pub fn suite(port: u16, conn_limit: u32, item_limit: u32, seed: u64, nprog: usiz
     let mut cmd_out = std::io::BufWriter::new(std::fs::File::create(format!("{}.cmd.ndjson", prefix)).unwrap());
     let mut wire_out = std::io::BufWriter::new(std::fs::File::create(format!("{}.wire.ndjson", prefix)).unwrap());
     let mut conn_out = std::io::BufWriter::new(std::fs::File::create(format!("{}.conn.ndjson", prefix)).unwrap());
+    let mut count_out = std::io::BufWriter::new(std::fs::File::create(format!("{}.count.ndjson", prefix)).unwrap());
     let mut summaries = Vec::new();
     let mut events = 0;
     for (i, h) in programs(seed, nprog).iter().enumerate() {
@@ -226,8 +227,200 @@ pub fn suite(port: u16, conn_limit: u32, item_limit: u32, seed: u64, nprog: usiz
         }
     }
     conn::run_scenario_on(&sc, port, false, &mut conn_out, 1);
+    // many connections at once on the same keys (they land on different listener threads / workers)
+    count_hammer(port, conn_limit as usize, &mut count_out);
+    count_out.flush().unwrap();
     cmd_out.flush().unwrap();
     wire_out.flush().unwrap();
     conn_out.flush().unwrap();
     json!({"events": events, "summaries": summaries})
+}
+
+// ---------------------------------------------------------------------------------------------
+// counting hammer (C04's counting clauses against the real binary, C20: under every configuration)
+
+fn incr_frame(key: &[u8], delta: u64, opq: u32) -> Frame {
+    let mut ex = Vec::new();
+    ex.extend_from_slice(&delta.to_be_bytes());
+    ex.extend_from_slice(&0u64.to_be_bytes());
+    ex.extend_from_slice(&0u32.to_be_bytes());
+    Frame::consistent(0x05, &ex, key, &[], opq, 0)
+}
+
+fn store_frame(op: u8, key: &[u8], val: &[u8], opq: u32) -> Frame {
+    Frame::consistent(op, &[0u8; 8], key, val, opq, 0)
+}
+
+/// sends the frames in one write and reads until the last one's answer has arrived
+fn batch(c: &mut Client, frames: &[Frame]) -> Vec<Value> {
+    use std::io::Write as W;
+    let mut b = Vec::new();
+    for f in frames {
+        b.extend_from_slice(&f.bytes());
+    }
+    if frames.is_empty() || c.s.write_all(&b).is_err() {
+        return vec![];
+    }
+    let last = frames[frames.len() - 1].opaque;
+    let (resp, _how) = c.read_until(Duration::from_millis(10000), &|x| tcp::has_opaque(x, last));
+    parse_responses(&resp)
+}
+
+/// K connections at once on the same keys: increments, appends, adds, and replace/append racing a delete.
+/// Writes one `hammer` event (the counts are judged by CountTrace.tla).
+pub fn count_hammer(port: u16, conns: usize, out: &mut dyn Write) {
+    use std::sync::{Arc, Barrier, Mutex};
+    // (never more connections than the server serves at a time: the others would wait unserved at the barriers)
+    let K: usize = std::cmp::max(2, std::cmp::min(conns, 8));
+    const M: usize = 160; // increments per connection
+    const B: usize = 16; // pipelined per batch
+    const MA: usize = 60; // appends per connection
+    const R: usize = 40; // add rounds
+    const RD: usize = 30; // delete rounds
+    let mut c0 = match Client::connect(port) {
+        Ok(c) => c,
+        Err(_) => {
+            writeln!(out, "{}", json!({"e": "hammer", "alive": false})).unwrap();
+            return;
+        }
+    };
+    let _ = one(&mut c0, &Frame::consistent(0x08, &[], &[], &[], 1, 0));
+    let _ = one(&mut c0, &store_frame(0x01, b"hctr", b"100", 2));
+    let _ = one(&mut c0, &store_frame(0x01, b"happ", b"", 3));
+    for r in 0..RD {
+        let _ = one(&mut c0, &store_frame(0x01, format!("hdel{}", r).as_bytes(), b"x", 4));
+    }
+    // the set-up connection must not occupy one of the slots the hammering connections need
+    let _ = c0.s.shutdown(Shutdown::Both);
+    drop(c0);
+    std::thread::sleep(Duration::from_millis(100));
+    let barrier = Arc::new(Barrier::new(K));
+    let results: Arc<Mutex<Vec<Value>>> = Arc::new(Mutex::new(vec![Value::Null; K]));
+    let mut hs = Vec::new();
+    for w in 0..K {
+        let barrier = barrier.clone();
+        let results = results.clone();
+        hs.push(std::thread::spawn(move || {
+            let mut res = json!({"connected": false});
+            // (the barriers are passed even by a thread whose connection failed, so that nobody waits forever)
+            let mut c = Client::connect(port).ok();
+            res["connected"] = json!(c.is_some());
+            let mut opq = 1000u32;
+            // 1. increments
+            barrier.wait();
+            let mut vals: Vec<u64> = Vec::new();
+            let mut bad = 0usize;
+            for _ in 0..(M / B) {
+                let frames: Vec<Frame> = (0..B).map(|_| { opq += 1; incr_frame(b"hctr", 3, opq) }).collect();
+                let rs = c.as_mut().map(|c| batch(c, &frames)).unwrap_or_default();
+                if rs.len() != B {
+                    bad += B - std::cmp::min(B, rs.len());
+                }
+                for r in rs {
+                    if r["st"].as_u64() == Some(0) && r["magic"].as_u64() == Some(129) {
+                        let v = crate::proto::unhex(r["v"].as_str().unwrap_or(""));
+                        if v.len() == 8 {
+                            vals.push(u64::from_be_bytes([v[0], v[1], v[2], v[3], v[4], v[5], v[6], v[7]]));
+                        } else {
+                            bad += 1;
+                        }
+                    } else {
+                        bad += 1;
+                    }
+                }
+            }
+            res["incr"] = json!({"vals": vals.iter().map(|v| std::cmp::min(*v, 1 << 30)).collect::<Vec<u64>>(), "bad": bad});
+            // 2. appends of distinct fixed-width tokens
+            barrier.wait();
+            let mut toks: Vec<String> = Vec::new();
+            let mut bad = 0usize;
+            for i in 0..MA {
+                let t = format!("{:02}{:04}", w, i);
+                opq += 1;
+                let rs = c.as_mut().map(|c| batch(c, &[store_frame_noextras(0x0e, b"happ", t.as_bytes(), opq)])).unwrap_or_default();
+                if rs.len() == 1 && rs[0]["st"].as_u64() == Some(0) {
+                    toks.push(t);
+                } else {
+                    bad += 1;
+                }
+            }
+            res["append"] = json!({"tokens": toks, "bad": bad});
+            // 3. adds of an absent key, all at once
+            let mut adds: Vec<u64> = Vec::new();
+            for r in 0..R {
+                barrier.wait();
+                opq += 1;
+                let rs = c.as_mut().map(|c| batch(c, &[store_frame(0x02, format!("hadd{}", r).as_bytes(), format!("c{}", w).as_bytes(), opq)])).unwrap_or_default();
+                adds.push(if rs.len() == 1 { rs[0]["st"].as_u64().unwrap_or(999) } else { 999 });
+            }
+            res["add"] = json!(adds);
+            // 4. a delete against replace / append
+            let mut dels: Vec<u64> = Vec::new();
+            for r in 0..RD {
+                barrier.wait();
+                opq += 1;
+                let key = format!("hdel{}", r);
+                let f = if w == 0 { Frame::consistent(0x04, &[], key.as_bytes(), &[], opq, 0) }
+                    else if w % 2 == 1 { store_frame(0x03, key.as_bytes(), format!("r{}", w).as_bytes(), opq) }
+                    else { store_frame_noextras(0x0e, key.as_bytes(), b"+", opq) };
+                let rs = c.as_mut().map(|c| batch(c, &[f])).unwrap_or_default();
+                dels.push(if rs.len() == 1 { rs[0]["st"].as_u64().unwrap_or(999) } else { 999 });
+            }
+            res["del"] = json!(dels);
+            if let Some(c) = c.as_mut() {
+                let _ = c.s.shutdown(Shutdown::Both);
+            }
+            results.lock().unwrap()[w] = res;
+        }));
+    }
+    for h in hs {
+        let _ = h.join();
+    }
+    // final observations on a fresh connection
+    let fin = |c: &mut Client, key: &[u8]| -> Value {
+        let rs = one(c, &Frame::consistent(0x00, &[], key, &[], 77, 0));
+        if rs.len() == 1 { json!({"st": rs[0]["st"], "v": String::from_utf8_lossy(&crate::proto::unhex(rs[0]["v"].as_str().unwrap_or(""))).to_string()}) } else { json!({"st": 999, "v": ""}) }
+    };
+    let alive = Client::connect(port).is_ok();
+    let mut c1 = match Client::connect(port) {
+        Ok(c) => c,
+        Err(_) => {
+            writeln!(out, "{}", json!({"e": "hammer", "alive": false})).unwrap();
+            return;
+        }
+    };
+    let ctr = fin(&mut c1, b"hctr");
+    let app = fin(&mut c1, b"happ");
+    let add_fin: Vec<Value> = (0..R).map(|r| fin(&mut c1, format!("hadd{}", r).as_bytes())).collect();
+    let del_fin: Vec<Value> = (0..RD).map(|r| fin(&mut c1, format!("hdel{}", r).as_bytes())["st"].clone()).collect();
+    let _ = c1.s.shutdown(Shutdown::Both);
+    let per = results.lock().unwrap().clone();
+    writeln!(out, "{}", json!({"e": "hammer", "alive": alive, "conns": K, "incr_per": M, "d": 3, "init": 100, "append_per": MA, "rounds": R, "del_rounds": RD,
+        "per": per, "ctr": ctr, "app": app, "add_fin": add_fin, "del_fin": del_fin})).unwrap();
+}
+
+fn store_frame_noextras(op: u8, key: &[u8], val: &[u8], opq: u32) -> Frame {
+    Frame::consistent(op, &[], key, val, opq, 0)
+}
+
+
+/// Connection-limit scenarios only (C17 against the real binary): `n` scenarios, black-box.
+pub fn conn_scenarios(port: u16, conn_limit: u32, item_limit: u32, seed: u64, n: usize, path: &str) -> usize {
+    let mut conn_out = std::io::BufWriter::new(std::fs::File::create(path).unwrap());
+    let mut rng = SmallRng::seed_from_u64(seed + 99);
+    for i in 0..n {
+        let mut sc = conn::gen_scenario(&mut rng, conn_limit);
+        sc["item_limit"] = json!(item_limit);
+        // no idle way: the binary's receive timeout is 60 s
+        if let Some(steps) = sc["steps"].as_array_mut() {
+            for st in steps.iter_mut() {
+                if st["way"] == "idle" || st["way"] == "idlemid" {
+                    st["way"] = json!("close");
+                }
+            }
+        }
+        conn::run_scenario_on(&sc, port, false, &mut conn_out, i + 1);
+    }
+    conn_out.flush().unwrap();
+    n
 }
